@@ -8,7 +8,6 @@ package core
 
 import (
 	"fmt"
-	"os/exec"
 	"sort"
 	"strings"
 
@@ -16,47 +15,6 @@ import (
 )
 
 // ---------------------------------------------------------------- semaphore
-
-// SemOp is one operation of a harness thread on a ResourceSemaphore.
-//
-//	acq N      Acquire(N); on success hold it across one scheduling point, then Release(N)
-//	hold N     Acquire(N) and never release
-//	actual N   UpdateActual(N)
-//	size N     UpdateSize(N)
-//	free N M   UpdateFreeUsed(N, M)
-//	obs        read Reserved/Available/CurrentSize/QueueLength/InUse
-type SemOp struct {
-	Kind string `json:"k"`
-	N    int64  `json:"n,omitempty"`
-	M    int64  `json:"m,omitempty"`
-}
-
-func (o SemOp) String() string {
-	switch o.Kind {
-	case "free":
-		return fmt.Sprintf("free(%d,%d)", o.N, o.M)
-	case "obs":
-		return "obs"
-	}
-	return fmt.Sprintf("%s(%d)", o.Kind, o.N)
-}
-
-type SemScenario struct {
-	Max     int64     `json:"max"`
-	Threads [][]SemOp `json:"threads"`
-}
-
-func (sc SemScenario) String() string {
-	var ts []string
-	for _, t := range sc.Threads {
-		var os []string
-		for _, o := range t {
-			os = append(os, o.String())
-		}
-		ts = append(ts, strings.Join(os, ";"))
-	}
-	return fmt.Sprintf("sem{max=%d | %s}", sc.Max, strings.Join(ts, " | "))
-}
 
 // refSem is the reference model: a FIFO queue served eagerly.
 type refWaiter struct {
@@ -308,44 +266,6 @@ func firstLines(s string, n int) string {
 
 // ----------------------------------------------------------------- max jobs
 
-// JobsOp is one operation of a harness thread on a MaxJobsSemaphore.
-//
-//	job J        Acquire(md J, blocking); if granted: the job starts (running), one
-//	             scheduling point, completes, Release(md J)
-//	lost J       as job, but nobody calls Release (the completion is found by FindDone)
-//	try J        Acquire(md J, nonblocking) (re-attach); if granted behaves like job
-//	cancel J     the job of md J is marked failed (while it may still wait)
-//	find         FindDone()
-type JobsOp struct {
-	Kind string `json:"k"`
-	J    int    `json:"j,omitempty"`
-}
-
-func (o JobsOp) String() string {
-	if o.Kind == "find" {
-		return "find"
-	}
-	return fmt.Sprintf("%s(%d)", o.Kind, o.J)
-}
-
-type JobsScenario struct {
-	Limit   int        `json:"limit"`
-	Jobs    int        `json:"jobs"`
-	Threads [][]JobsOp `json:"threads"`
-}
-
-func (sc JobsScenario) String() string {
-	var ts []string
-	for _, t := range sc.Threads {
-		var os []string
-		for _, o := range t {
-			os = append(os, o.String())
-		}
-		ts = append(ts, strings.Join(os, ";"))
-	}
-	return fmt.Sprintf("jobs{limit=%d | %s}", sc.Limit, strings.Join(ts, " | "))
-}
-
 type JobsResult struct {
 	// States are the canonical implementation states seen after critical
 	// sections (for distinct-state counting).
@@ -353,14 +273,6 @@ type JobsResult struct {
 	Violations []string
 	Outcome    string
 	Steps      int
-}
-
-func verifSetState(md *Metadata, names ...MetadataFileName) {
-	md.mutex.Lock()
-	for _, n := range names {
-		md._cacheNoLock(n)
-	}
-	md.mutex.Unlock()
 }
 
 // VerifRunJobs executes sc under the scheduler.
@@ -561,34 +473,6 @@ func VerifRunJobs(sc JobsScenario, prefix []int) (*vshim.Sched, *JobsResult) {
 
 // ------------------------------------------------------- local job manager
 
-// VerifExecHook replaces executeLocal in the c12 build.
-var VerifExecHook func(md *Metadata) error
-
-func verifExecuteLocal(cmd *exec.Cmd, stdoutPath, stderrPath string,
-	localpreflight bool, metadata *Metadata) error {
-	if VerifExecHook != nil {
-		return VerifExecHook(metadata)
-	}
-	return executeLocal(cmd, stdoutPath, stderrPath, localpreflight, metadata)
-}
-
-// LocalScenario: jobs enqueued on a LocalJobManager.
-type LocalScenario struct {
-	Cores   int            `json:"cores"`
-	MemGB   int            `json:"mem_gb"`
-	VmemGB  int            `json:"vmem_gb"`
-	Default [2]int         `json:"default"` // ThreadsPerJob, MemGBPerJob
-	Jobs    []JobResources `json:"jobs"`
-}
-
-func (sc LocalScenario) String() string {
-	var js []string
-	for _, j := range sc.Jobs {
-		js = append(js, fmt.Sprintf("%g/%g/%g", j.Threads, j.MemGB, j.VMemGB))
-	}
-	return fmt.Sprintf("local{cores=%d mem=%d vmem=%d default=%v | %s}", sc.Cores, sc.MemGB, sc.VmemGB, sc.Default, strings.Join(js, " "))
-}
-
 type LocalResult struct {
 	// States are the canonical implementation states seen after critical
 	// sections (for distinct-state counting).
@@ -596,22 +480,6 @@ type LocalResult struct {
 	Violations []string
 	Outcome    string
 	Steps      int
-}
-
-func newVerifLocalJM(sc LocalScenario) *LocalJobManager {
-	jm := &LocalJobManager{
-		jobSettings: &JobManagerSettings{ThreadsPerJob: sc.Default[0], MemGBPerJob: sc.Default[1], ExtraVmemGB: 1},
-		jobDone:     make(chan struct{}, 1),
-		maxCores:    sc.Cores,
-		maxMemGB:    sc.MemGB,
-		maxVmemMB:   int64(sc.VmemGB) * 1024,
-	}
-	jm.centcoreSem = NewResourceSemaphore(int64(jm.maxCores)*100, formatCentiThreads)
-	jm.memMBSem = NewResourceSemaphore(int64(jm.maxMemGB)*1024, formatMemMB)
-	if jm.maxVmemMB > 0 {
-		jm.vmemMBSem = NewResourceSemaphore(jm.maxVmemMB, formatVMemMB)
-	}
-	return jm
 }
 
 // VerifRunLocal enqueues the jobs of sc on a real LocalJobManager whose
@@ -696,15 +564,6 @@ func VerifRunLocal(sc LocalScenario, prefix []int) (*vshim.Sched, *LocalResult) 
 	}
 	res.Outcome = fmt.Sprintf("done=%d peak=%g threads/%g GB", done, maxSeen[0], maxSeen[1])
 	return s, res
-}
-
-func keysOf(m map[int]bool) []int {
-	var out []int
-	for k := range m {
-		out = append(out, k)
-	}
-	sort.Ints(out)
-	return out
 }
 
 // VerifSystemReqs evaluates GetSystemReqs for the request grid of C12.  avail is the current size of the
